@@ -17,7 +17,8 @@ ASSUMPTIONS = ["the instrumented Lock stands in for threading.Lock (a native sel
                "a wall-clock watchdog around the child process is inconclusive, never a violation"]
 REQUIRED = {"batches_over_100": {"quick": 40, "thorough": 1000}, "clock_bumps_seen": {"quick": 20, "thorough": 500},
             "datetime_clock_cases": {"quick": 100, "thorough": 3000}, "restarts_checked": {"quick": 200, "thorough": 8000},
-            "self_cancelling_recursions": {"quick": 200, "thorough": 8000}}
+            "self_cancelling_recursions": {"quick": 200, "thorough": 8000},
+            "programs_with_self_disposing_actions_returning_non_disposables": {"quick": 60, "thorough": 2500}}
 CASES = {"quick": 640, "thorough": 24000}
 UNIT_TIMEOUT = {"quick": 240, "thorough": 3000}
 FILES = ("scheduler/virtualtimescheduler.py",)
@@ -32,7 +33,10 @@ def gen_program(r: Any) -> dict:
         t += r.choice([0, 1, 5, 10])
         size = r.choice([0, 1, 3, 50, 99, 100, 101, 102, 150, 201, 305, 400]) if r.random() < 0.6 else r.randint(0, 30)
         batches.append({"at": t, "n": size, "resched": r.choice([0, 0, 1, 3]) if size <= 150 else 0,
-                        "cancel_every": r.choice([0, 0, 0, 2, 7])})
+                        "cancel_every": r.choice([0, 0, 0, 2, 7]),
+                        # what the action returns (the scheduler accepts anything and keeps only disposables) and whether every
+                        # fifth action disposes its OWN handle while it runs
+                        "ret": r.choice([None, None, "true", "int", "str"]), "self_dispose": r.random() < 0.3})
     # a recursion that is bounded by CANCELLATION instead of a counter: the action returns the handle of its follow-up and, at its
     # k-th run, disposes the handle of the whole chain from inside itself
     selfcancel = r.choice([0, 0, 1, 3, 40, 150])
@@ -61,21 +65,29 @@ def scenario(c: Any, P: dict) -> dict:
         k = s._clock
         return (k - epoch).total_seconds() if kind == "hist" else float(k)
 
-    def make(due: float, left: int) -> Any:
-        def act(sch: Any, st: Any) -> None:
+    RET = {None: None, "true": True, "int": 7, "str": "x"}
+
+    def make(due: float, left: int, ret: Any = None, own: list | None = None) -> Any:
+        def act(sch: Any, st: Any) -> Any:
             ran[0] += 1
             if clock_s() > due + 1e-9:
                 bumps[0] += 1
             if left > 0:
                 sch.schedule(make(clock_s(), left - 1))
+            if own is not None and own[0] is not None:
+                own[0].dispose()          # cancels itself while running: must have no effect on this run
+            return RET[ret]
         return act
 
     for b in P["batches"]:
         for i in range(b["n"]):
+            own: list | None = [None] if (b.get("self_dispose") and i % 5 == 0) else None
             if P["via"] == "absolute":
-                d = s.schedule_absolute(to_abs(b["at"]), make(b["at"], b["resched"]))
+                d = s.schedule_absolute(to_abs(b["at"]), make(b["at"], b["resched"], b.get("ret"), own))
             else:
-                d = s.schedule_relative(to_rel(b["at"]), make(b["at"], b["resched"]))
+                d = s.schedule_relative(to_rel(b["at"]), make(b["at"], b["resched"], b.get("ret"), own))
+            if own is not None:
+                own[0] = d
             if b["cancel_every"] and i % b["cancel_every"] == 0:
                 d.dispose()
             else:
@@ -124,6 +136,8 @@ def run_case(seed: int, idx: int, res: UnitResult) -> None:
     res.count("actions_scheduled", total)
     if P.get("selfcancel"):
         res.count("self_cancelling_recursions")
+    if any(b.get("self_dispose") and b.get("ret") and b["n"] for b in P["batches"]):
+        res.count("programs_with_self_disposing_actions_returning_non_disposables")
     res.note("kinds", P["kind"] + "/" + P["run"])
     if P["kind"] == "hist":
         res.count("datetime_clock_cases")
